@@ -205,6 +205,9 @@ var registry = map[string]propDef{
 	"C11y": {"other", props.DeadErrors("p2p")},
 	"C19y": {"other", props.DeadErrors("p2p")},
 	"C10e": {"other", props.DeadErrors("gmw")},
+	"C10q": {"other", props.RecvBytes("gmw")},
+	"C02y": {"other", props.RecvBytes("circuit", "compiler/ssa", "ot")},
+	"C16y": {"other", props.RecvBytes("circuit", "compiler/ssa")},
 	"C14e": {"other", props.DeadErrors("circuit", "types")},
 	"C20d": {"other", props.DeadErrors("vole", "bmr", "ot")},
 	"C02a": {"other", props.CallerSlices},
